@@ -1,5 +1,6 @@
 /-
 C18 — link and airspace load accounting, as the code does it (after the `fix:` commits for F-28, F-28b and F-40).
+Floats: see Props/C18Float.lean (the rounded accounting is proved equal to this model below 2^53 bytes).
 
 What is modelled (src/primaite/simulator/network/hardware/base.py `Link`, `WiredNetworkInterface.send_frame`,
 nodes/network/switch.py `SwitchPort.send_frame`, airspace.py `AirSpace`, `WirelessNetworkInterface.send_frame`,
@@ -20,7 +21,14 @@ container.py `Network.pre_timestep`):
   bytes and `size_Mbits = bytes * 8 / 2^20` is an exact dyadic float, see harness/rigs/link.py).  The only arithmetic
   fact used is that the value tested by the admission check is the value added to the load;
 * what the receiving interface answers (`acc`: TTL, addressing) and which events are nested are *inputs*; which verdict a
-  send gets and what the loads are afterwards are *outputs*.
+  send gets and what the loads are afterwards are *outputs*;
+* an exception raised while a frame is being processed unwinds through every `transmit_frame` / `AirSpace.transmit` below it and
+  none of them releases its reservation: such a send is `Ev.lost` / `Ev.wlost` (verdict `lost`), with whatever had completed
+  inside it.  The exception may be caught further up (the enclosing sends are then ordinary `send`s) or reach the caller of
+  the action (every enclosing send is `lost`);
+* `link.bandwidth` and the capacity of a frequency name are plain attributes a user's script can reassign between two actions
+  (`Op.setBw`, `Op.setCap`); no code of the simulator does so after construction (Gen: `capacityWriters`).  Neither looks at or
+  touches a load.
 
 Core Lean only.
 -/
